@@ -395,6 +395,12 @@ def run_shard(spec):
         g.avoid_none_default = True
         for _ in range(spec["n"]):
             q = g.top()
+            if rnd.random() < 0.04:
+                # a failure followed by many steps that are never executed: the message has to survive all of them
+                g._numeric_prefix = False
+                q = "%s/%s/%s" % (g.action(0, 0, True), rnd.choice(["boom", "nosuchcmd", "add-x", "cat-~X~/one/boom~E"]),
+                                  "/".join(rnd.choice(["ident", "cat-a", "add-1", "cat-b/ident"]) for _ in range(rnd.randint(5, 8))))
+                env.count("long_tail_after_failure")
             handle(mode, q)
         if not mode.startswith("storekey"):
             for q in RESQ:
